@@ -24,10 +24,15 @@ type Sink struct {
 	Outcomes []Outcome // consumed per Write; empty = accept everything
 	SyncErrs []error   // consumed per Sync
 	Name     string
+	// canary is touched WITHOUT the sink's own mutex on entry of every call: zap promises to
+	// serialise all calls into a sink below Lock/BufferedWriteSyncer, so in a -race build two
+	// overlapping calls are a race report even though the event log itself is mutex-guarded.
+	canary int
 }
 
 // Write records p.
 func (s *Sink) Write(p []byte) (int, error) {
+	s.canary++
 	s.mu.Lock()
 	defer s.mu.Unlock()
 	s.Events = append(s.Events, Event{'W', append([]byte(nil), p...)})
@@ -45,6 +50,7 @@ func (s *Sink) Write(p []byte) (int, error) {
 
 // Sync records a sync.
 func (s *Sink) Sync() error {
+	s.canary++
 	s.mu.Lock()
 	defer s.mu.Unlock()
 	s.Events = append(s.Events, Event{Kind: 'S'})
